@@ -460,7 +460,7 @@ class Recorder(object):
             raise Crash("injected")
 
 
-def install_oracle(rec, house):
+def install_oracle(rec, house, store=None, nvars=0):
     """implementation-side oracle log (rec.oracle; never compared with the model): the harness wraps, in the
     check process only, Transiter.action, Suspender.action, Framer.enterAll/exitAll, Frame.enter,
     CompleteDone.action and NeedDone/NeedDoneAux.action and records, at the moment of every attempt, an
@@ -473,10 +473,21 @@ def install_oracle(rec, house):
     rec.quiet = 0
     depth = [0]
 
+    def marks_digest():
+        out = []
+        for v in range(nvars):
+            sh = store.fetchShare(".v%d" % v) or store.fetchShare("v%d" % v)
+            if sh is None:
+                continue
+            for k, m in sh.marks.items():
+                d = m.data
+                out.append([v, str(k), repr(m.stamp), repr(m.used), repr(dict(getattr(d, "__dict__", {}) or {}))])
+        return out
+
     def snapshot():
         rec.quiet += 1
         try:
-            S = {}
+            S = {"__marks__": marks_digest()}
             for t in framers:
                 g = {}
                 for f in t.frameNames.values():
@@ -506,7 +517,7 @@ def install_oracle(rec, house):
             rec.quiet -= 1
 
     def after(t):
-        return [[f.name for f in t.actives], float(t.elapsed).hex(), int(t.recurred)]
+        return [[f.name for f in t.actives], float(t.elapsed).hex(), int(t.recurred), marks_digest()]
 
     saved = []
 
@@ -668,7 +679,7 @@ def run_impl(prog, crash_at, workdir, name="prog", limit_s=20, maxticks=60):
             return orig_change(stamp)
 
         store.changeStamp = changeStamp
-        restore_oracle = install_oracle(rec, house)
+        restore_oracle = install_oracle(rec, house, store, prog["nvars"])
         excn = False
         try:
             sk.run()
